@@ -555,6 +555,8 @@ func TestDrv_C09(t *testing.T) {
 			}
 		}
 	}
+	// the commands read several files through one round-robin decoder: a cut stream next to whole ones
+	cases += cutNextToSparse(trs[0], r, 60)
 	events := 0
 	for _, tr := range trs {
 		events += tr.N
@@ -638,6 +640,30 @@ func TestDrv_C08(t *testing.T) {
 		}
 		if len(samples) < 2 {
 			samples = append(samples, KV{"records": n, "first_body_bytes": len(rs[0].Body)})
+		}
+	}
+	// a first record far larger than any buffer (a 20 MiB response body captured with -max-body=-1), then small ones
+	{
+		rs := []vegeta.Result{genResult(r, 0, 100), genResult(r, 1, 100), genResult(r, 2, 100)}
+		rs[0].Body = make([]byte, 20<<20)
+		r.Read(rs[0].Body)
+		for _, c := range codecs {
+			data, _ := encodeAll(c, rs)
+			for _, chunk := range []int{0, 1 << 16} {
+				cases++
+				tr.Emit("Reset", KV{"kind": "c08", "codec": c.name, "n": len(rs), "chunk": chunk, "bytes": len(data), "reader": "first record of 20 MiB"})
+				var rd io.Reader = bytes.NewReader(data)
+				if chunk > 0 {
+					rd = &chunkReader{r: bytes.NewReader(data), size: chunk}
+				}
+				dec := vegeta.DecoderFor(rd)
+				if dec == nil {
+					tr.Emit("Auto", KV{"detected": false, "out": []int{}, "tail": "none"})
+					continue
+				}
+				ids, tail := decodeIDs(dec, rs, len(rs)+3)
+				tr.Emit("Auto", KV{"detected": true, "out": ids, "tail": tail})
+			}
 		}
 	}
 	// a seekable reader that the caller has already read a preamble from: the stream starts at its current position
@@ -903,6 +929,7 @@ func TestDrv_C13(t *testing.T) {
 			jobs = append(jobs, cmdJob{kind: "report", out: mo, rtype: rtype, lens: lens, pair: len(jobs) - 1})
 		}
 	}
+	cases += cutNextToSparse(tr, r, 60)
 	if len(ops) > 0 {
 		res, err := runMain(dir, ops)
 		if err != nil {
@@ -1062,4 +1089,74 @@ func reportExact(rtype string, data []byte) any {
 	default:
 		return string(data)
 	}
+}
+
+// cutNextToSparse: a JSON file cut inside a line (a killed attack) is read next to whole files of sparse records through
+// the round-robin decoder: the union is the clean prefix of the cut file plus the others, and nothing of the unfinished
+// line shows up in any record.
+func cutNextToSparse(tr *Tracer, r *rand.Rand, n int) (cases int) {
+	for c := 0; c < n; c++ {
+		k := 2 + r.Intn(2)
+		lens := make([]int, k)
+		files := make([][]vegeta.Result, k)
+		encs := make([]string, k)
+		var datas [][]byte
+		for f := 0; f < k; f++ {
+			lens[f] = 1 + r.Intn(4)
+			encs[f] = codecs[r.Intn(3)].name
+			if f == 0 {
+				encs[f] = "json"
+				lens[f] = 2 + r.Intn(3)
+			}
+			for i := 0; i < lens[f]; i++ {
+				res := vegeta.Result{Attack: fmt.Sprintf("f%d", f), Seq: uint64(i), Timestamp: time.Unix(1700000000+int64(i), int64(f)), Latency: time.Duration(1 + r.Intn(9))}
+				if f == 0 { // every field of the cut file's records is set
+					res.Code, res.Error, res.Body, res.Method, res.URL = 201, "connection refused", []byte("payload"), "POST", "http://cut.example/"
+					res.Headers, res.BytesIn, res.BytesOut = http.Header{"X-Cut": {"1"}}, 77, 88
+				}
+				files[f] = append(files[f], res)
+			}
+			data, frames := encodeAll(codecByName(encs[f]), files[f])
+			if f == 0 { // cut strictly inside the last record's line
+				last := frames[len(frames)-1]
+				lo, hi := last["start"].(int), last["end"].(int)
+				data = data[:lo+1+r.Intn(hi-lo-1)]
+				lens[0]--
+			}
+			datas = append(datas, data)
+		}
+		cases++
+		tr.Emit("Reset", KV{"kind": "c13", "lens": lens, "encs": encs, "via": "NewRoundRobinDecoder, first file cut inside its last line"})
+		var decs []vegeta.Decoder
+		for f := range datas {
+			if d := vegeta.DecoderFor(bytes.NewReader(datas[f])); d != nil {
+				decs = append(decs, d)
+			}
+		}
+		out := []KV{}
+		tail := "undetected"
+		if len(decs) == k {
+			dec := vegeta.NewRoundRobinDecoder(decs...)
+			tail = "runaway"
+			for n := 0; n < 20; n++ {
+				var got vegeta.Result
+				err := dec.Decode(&got)
+				if err == io.EOF {
+					tail = "eof"
+					break
+				} else if err != nil {
+					tail = "err"
+					break
+				}
+				var f int
+				m := KV{"f": 0, "i": 0}
+				if _, err := fmt.Sscanf(got.Attack, "f%d", &f); err == nil && f >= 0 && f < k && int(got.Seq) < lens[f] && sameResult(&got, &files[f][got.Seq]) {
+					m = KV{"f": f + 1, "i": int(got.Seq) + 1}
+				}
+				out = append(out, m)
+			}
+		}
+		tr.Emit("Multi", KV{"out": out, "tail": tail})
+	}
+	return cases
 }
